@@ -69,7 +69,10 @@ def install_futures(ex):
     def m_poll(e, n, a):
         target = unpin(a[0])
         f = target.get() if isinstance(target, Ref) else target
-        while isinstance(f, Ref): target = f; f = f.get()
+        while isinstance(f, Ref) or (isinstance(f, Agg) and f.name == 'Pin'):
+            # &mut Pin<Box<dyn Future>> (async_trait futures answered by the environment)
+            if isinstance(f, Ref): target = f; f = f.get()
+            else: target = f.fields[0]; f = target.get() if isinstance(target, Ref) else target
         if isinstance(f, (EnvFuture, M.BoxV)) or (isinstance(f, Agg) and f.kind == 'coroutine' and not (f.body_key and f.body_key in e.db.by_key and False)):
             if isinstance(f, Agg) and f.kind == 'coroutine':
                 return NotImplemented           # the resolved instance is the coroutine body itself: run the real MIR
